@@ -244,26 +244,15 @@ func runC10(c c10Case) (out lib.Outcome) {
 	if status != 0 && status != 400 {
 		out.Violate("C10/refusal-status", "HTTP refusal status %d, expected 400", status)
 	}
-	msg := info.Message
-	if !strings.Contains(msg, c.Server) {
-		out.Violate("C10/refusal-message", "message does not name the server version %q: %s", c.Server, lib.Short(msg, 300))
-	}
+	// Only the clause the property states is judged on the message: a mismatch
+	// names the side that must upgrade. Which versions it quotes, and how an
+	// absent or malformed version is described, is wording.
+	msg := strings.ToLower(info.Message)
 	switch reason {
-	case "absent":
-		if !strings.Contains(msg, "<not declared>") {
-			out.Violate("C10/refusal-message-absent", "message for an absent version lacks '<not declared>': %s", lib.Short(msg, 300))
-		}
-	case "malformed":
-		if !strings.Contains(msg, "malformed") {
-			out.Violate("C10/refusal-message-malformed", "message for malformed %q lacks 'malformed': %s", cl, lib.Short(msg, 300))
-		}
 	case "client-old", "server-old":
 		wantOld, other := "client is too old", "server is too old"
 		if reason == "server-old" {
 			wantOld, other = other, wantOld
-		}
-		if !strings.Contains(msg, cl) {
-			out.Violate("C10/refusal-message", "message does not name the client version %q", cl)
 		}
 		if !strings.Contains(msg, wantOld) || strings.Contains(msg, other) {
 			key := lib.Keyf("C10", "refusal-direction", reason)
